@@ -481,7 +481,10 @@ class MessageAccumulator:
                 continue
             leader = self._cluster.leader_for_partition(tp)
             if leader is None or leader == -1:
-                if self._batches[tp][0].expired():
+                # If idempotence is enabled we never expire batches (see
+                # `SendProduceReqHandler._can_retry`): popping one would consume
+                # its sequence numbers and leave a gap for the next batch.
+                if self._txn_manager is None and self._batches[tp][0].expired():
                     # batch is for partition is expired and still no leader,
                     # so set exception for batch and pop it
                     batch = self._pop_batch(tp)
